@@ -82,6 +82,13 @@ func (c *C12Case) payload() []byte {
 		if p := padTo(c12BaseXML(c.Kind), c.Size); p != nil {
 			return p
 		}
+	case "valid-ws-padded":
+		// trailing white space after the root: every prefix that contains the whole root is itself a
+		// complete document, so a decoder that silently truncates at the limit would accept it
+		base := c12BaseXML(c.Kind)
+		if int64(len(base)) <= c.Size {
+			return append(append([]byte{}, base...), bytes.Repeat([]byte{'\n'}, int(c.Size)-len(base))...)
+		}
 	}
 	return bytes.Repeat([]byte{'A'}, int(c.Size))
 }
@@ -135,7 +142,7 @@ func genC12(t *rapid.T) C12Case {
 	if c.Size > capSize {
 		c.Size = capSize
 	}
-	c.Payload = rapid.SampledFrom([]string{"valid-padded", "valid-padded", "run"}).Draw(t, "payload")
+	c.Payload = rapid.SampledFrom([]string{"valid-padded", "valid-ws-padded", "run"}).Draw(t, "payload")
 	return c
 }
 
@@ -313,6 +320,7 @@ func TestC12_Grid(t *testing.T) {
 					continue
 				}
 				cases = append(cases, C12Case{Limit: l, Size: rel.s, Payload: "valid-padded", Kind: kind, Level: 6, Relation: rel.n})
+				cases = append(cases, C12Case{Limit: l, Size: rel.s, Payload: "valid-ws-padded", Kind: kind, Level: 1, Relation: rel.n})
 			}
 			bomb := int64(32 << 20)
 			if h.Thorough() {
